@@ -222,3 +222,123 @@ mod verif_body_c02 {
         assert!(false, "twin: must be reported as FAILURE");
     });
 }
+
+// ----------------------------------------------------------------------------------------- C19
+mod verif_body_c19 {
+    use super::verif_body::*;
+    use super::*;
+    use crate::verif::{ch, Case, Ch, Fault, Script, Seg};
+    use std::io::Read;
+
+    fn pump<R: Read>(r: &mut R, script: *const Script, case: &Case, avail: usize, rd: usize) {
+        let mut buf = [0u8; 8];
+        let mut delivered = 0;
+        let mut i = 0;
+        while i < avail && delivered < avail {
+            match r.read(&mut buf[..rd]) {
+                Ok(n) => {
+                    assert!(n >= 1, "C19: read returned no data although payload bytes had already arrived");
+                    let mut j = 0;
+                    while j < n {
+                        assert!(delivered + j < case.pay_len && buf[j] == case.payload[delivered + j], "C19: wrong byte delivered");
+                        j += 1;
+                    }
+                    delivered += n;
+                }
+                Err(e) => {
+                    std::mem::forget(e);
+                    assert!(false, "C19: read failed (would block) although payload bytes had already arrived");
+                }
+            }
+            assert!(unsafe { (*script).end_hits } == 0, "C19: a read that could be satisfied waited for bytes the server had not sent yet");
+            i += 1;
+        }
+        assert!(delivered >= avail, "C19: arrived payload not delivered");
+    }
+
+    /// The server pauses for ever after `pause` bytes: a transport read at that point is the event
+    /// "the client blocks" (recorded in end_hits, answered with WouldBlock).
+    pub fn c19_pause(framing: Framing, case: &Case, pause: usize, seg: Seg, cap: usize, rd: usize, via_enum: bool) {
+        let mut script = case.transport(pause, seg, Fault::WouldBlock);
+        let sp: *const Script = &script;
+        match framing {
+            Framing::Chunked => {
+                let avail = case.complete_at[pause];
+                let mut r = chunked_reader(script.handle(), cap);
+                pump(&mut r, sp, case, avail, rd);
+                std::mem::forget(r);
+            }
+            // Length/Close: the std readers BodyReader::{Length,Close} wrap, instantiated exactly as
+            // there (Take<BufReader<BaseStream>>, BufReader<BaseStream>).  Going through the BodyReader
+            // enum costs > 10x here (reader state inside the enum payload is not constant-propagated
+            // by CBMC); the enum arms themselves are exercised by the C01/C02 families and by the
+            // c19_*_viaenum harnesses.
+            Framing::Length => {
+                let avail = case.present_at[pause];
+                if via_enum {
+                    let mut r = length_reader(script.handle(), cap, case.pay_len as u64);
+                    pump(&mut r, sp, case, avail, rd);
+                    std::mem::forget(r);
+                } else {
+                    let mut r = std::io::BufReader::with_capacity(cap, BaseStream::Verif(script.handle())).take(case.pay_len as u64);
+                    pump(&mut r, sp, case, avail, rd);
+                    std::mem::forget(r);
+                }
+            }
+            Framing::Close => {
+                let avail = case.present_at[pause];
+                if via_enum {
+                    let mut r = close_reader(script.handle(), cap);
+                    pump(&mut r, sp, case, avail, rd);
+                    std::mem::forget(r);
+                } else {
+                    let mut r = std::io::BufReader::with_capacity(cap, BaseStream::Verif(script.handle()));
+                    pump(&mut r, sp, case, avail, rd);
+                    std::mem::forget(r);
+                }
+            }
+        }
+    }
+
+    pub fn c19_pauses(framing: Framing, case: &Case, seg: Seg, cap: usize, rd: usize, from: usize, to: usize, via_enum: bool) {
+        let mut p = from;
+        while p <= case.frame_len && p < to {
+            c19_pause(framing, case, p, seg, cap, rd, via_enum);
+            p += 1;
+        }
+        kani::cover!(true, "must: pause points explored");
+    }
+
+    macro_rules! c19_chunked {
+        ($name:ident, $shape:expr, $seg:expr, $cap:expr, $rd:expr, $from:expr, $to:expr) => {
+            verif_harness!($name, 40, {
+                let shape: &[Ch] = &$shape;
+                let case = Case::chunked(shape, 0, false);
+                assert!($from <= case.frame_len, "harness shape error: empty pause range");
+                c19_pauses(Framing::Chunked, &case, $seg, $cap, $rd, $from, $to, false);
+            });
+        };
+    }
+    macro_rules! c19_raw {
+        ($name:ident, $framing:expr, $n:expr, $seg:expr, $cap:expr, $rd:expr) => {
+            c19_raw!($name, $framing, $n, $seg, $cap, $rd, false);
+        };
+        ($name:ident, $framing:expr, $n:expr, $seg:expr, $cap:expr, $rd:expr, $via:expr) => {
+            verif_harness!($name, 12, {
+                let case = Case::raw($n, 0);
+                c19_pauses($framing, &case, $seg, $cap, $rd, 0, 99, $via);
+            });
+        };
+    }
+
+    include!("gen_c19.rs");
+
+    c19_raw!(c19_t_length_n2_viaenum, Framing::Length, 2, Seg::Whole, 8, 1, true);
+    c19_raw!(c19_t_close_n2_viaenum, Framing::Close, 2, Seg::OneByte, 8, 8, true);
+
+    verif_harness!(c19_qtwin_chunked, 40, {
+        let case = Case::chunked(&[ch(2), ch(1)], 0, false);
+        c19_pauses(Framing::Chunked, &case, Seg::Whole, 8, 1, 0, 7, false);
+        assert!(false, "twin: must be reported as FAILURE");
+    });
+}
